@@ -1109,6 +1109,17 @@ static void corpusCases(vh::Rng& rng) {
     runCase(cx, mk(T::NT_RECURSIVE_SHORT, { L("a"), G("X1"), mk(T::INTERSECTION, { mk(T::NT_DECLARATIVE_EXPR, { L("x"), L("a"), mk(T::EQUAL, { pr("x"), L("x") }) }), mk(T::LIT_EMPTYSET) }) }), "corpus.recursion-condition-type", false);
     runCase(cx, mk(T::NT_RECURSIVE_FULL, { L("a"), mk(T::LIT_EMPTYSET), mk(T::FORALL, { L("x"), L("a"), mk(T::IN, { L("x"), G("X1") }) }), mk(T::UNION, { L("a"), G("X1") }) }), "corpus.recursion-condition-type", false);
   }
+  // a template parameter bound by an informative argument must not be re-bound by a later any-typed one (seeded change
+  // C02-5): the calls below are accepted with the informative instance, or rejected - never accepted with ℬ(R0)
+  {
+    defineGlobal(cx, "F8", "F8:==[\xCE\xB1\xE2\x88\x88\xE2\x84\xAC(R1), \xCE\xB2\xE2\x88\x88\xE2\x84\xAC\xE2\x84\xAC(R1)] \xCE\xB1", true);
+    auto call = [&](EP a, EP b) { return mk(T::NT_FUNC_CALL, { mkName(T::ID_FUNCTION, "F8"), std::move(a), std::move(b) }); };
+    runCase(cx, call(G("X1"), mk(T::LIT_EMPTYSET)), "anytype.template-rebind", false);
+    runCase(cx, mk(T::EQUAL, { mk(T::REDUCE, { call(G("X1"), mk(T::LIT_EMPTYSET)) }), mk(T::LIT_EMPTYSET) }), "anytype.template-rebind", false);
+    runCase(cx, mk(T::EQUAL, { mkIdx(T::BIGPR, { 1 }, { call(G("X1"), mk(T::LIT_EMPTYSET)) }), mk(T::LIT_EMPTYSET) }), "anytype.template-rebind", false);
+    runCase(cx, mk(T::FORALL, { L("x"), call(G("X1"), mk(T::LIT_EMPTYSET)), mk(T::EQUAL, { mkIdx(T::SMALLPR, { 1 }, { L("x") }), L("x") }) }), "anytype.template-rebind", false);
+    runCase(cx, call(mk(T::LIT_EMPTYSET), mk(T::BOOLEAN, { G("X1") })), "anytype.template-rebind", false);
+  }
   // leniency of the checker towards the any-type (an operand typed ℬ(R0): ∅, {} of nothing, ℬ(∅)) must be matched by an
   // evaluator that never touches what was not checked (seeded change C02-3: filter parameters of an empty argument)
   {
@@ -1358,6 +1369,45 @@ static void limitCases() {
     runCase(cx, mk(T::EQUAL, { mkIdx(T::FILTER, { 2, 1 }, { x1x1(), x1x1() }), x1x1() }), "stage8.filter-complex", false);
     runCase(cx, mk(T::EQUAL, { mk(T::CARD, { mkIdx(T::FILTER, { 2, 1 }, { mk(T::NT_DECLARATIVE_EXPR, { mk(T::NT_TUPLE_DECL, { L("p"), L("q") }), x1x1(), mk(T::NOTEQUAL, { L("p"), L("q") }) }), x1x1() }) }), mkInt(2) }), "stage8.filter-complex", false);
     runCase(cx, mk(T::FORALL, { mk(T::NT_TUPLE_DECL, { L("a"), L("b") }), mkIdx(T::FILTER, { 2 }, { G("X1"), x1x1() }), mk(T::IN, { L("b"), G("X1") }) }), "stage8.filter-under-pattern", true);
+    // one parameter for a full-arity index list that PERMUTES or REPEATS components: the re-ordered tuple is tested, not
+    // the member itself (seeded change C01-5: a fast path returned S ∩ P)
+    {
+      auto T2 = [](int a, int b) { return mk(T::NT_TUPLE, { mkInt(a), mkInt(b) }); };
+      auto T3 = [](int a, int b, int c) { return mk(T::NT_TUPLE, { mkInt(a), mkInt(b), mkInt(c) }); };
+      const auto S = [&] { return mk(T::NT_ENUMERATION, { T2(1, 2), T2(3, 3), T2(2, 2), T2(4, 1) }); };
+      const auto P = [&] { return mk(T::NT_ENUMERATION, { T2(2, 1), T2(3, 3), T2(1, 4), T2(1, 2) }); };
+      runCase(cx, mkIdx(T::FILTER, { 2, 1 }, { P(), S() }), "stage8.filter-permuted", false);
+      runCase(cx, mkIdx(T::FILTER, { 1, 2 }, { P(), S() }), "stage8.filter-permuted", false);
+      runCase(cx, mkIdx(T::FILTER, { 1, 1 }, { P(), S() }), "stage8.filter-permuted", false);
+      runCase(cx, mkIdx(T::FILTER, { 2, 2 }, { P(), S() }), "stage8.filter-permuted", false);
+      const auto S3 = [&] { return mk(T::NT_ENUMERATION, { T3(1, 2, 3), T3(3, 2, 1), T3(2, 2, 2), T3(1, 1, 2) }); };
+      const auto P3 = [&] { return mk(T::NT_ENUMERATION, { T3(3, 2, 1), T3(2, 2, 2), T3(2, 1, 1) }); };
+      runCase(cx, mkIdx(T::FILTER, { 3, 2, 1 }, { P3(), S3() }), "stage8.filter-permuted", false);
+      runCase(cx, mkIdx(T::FILTER, { 2, 3, 1 }, { P3(), S3() }), "stage8.filter-permuted", false);
+      runCase(cx, mkIdx(T::FILTER, { 3, 1 }, { P(), S3() }), "stage8.filter-permuted", false);
+    }
+  }
+  // stage 10 (Properties/C01.lean eval_refines_denote_partial10): tuple patterns in the blocks of I{}, in the variable
+  // position of R{}, inside enumerated declarations - the witnesses of the theorem and their neighbours
+  {
+    auto pat = [&] { return mk(T::NT_TUPLE_DECL, { L("a"), L("b") }); };
+    auto x1x1 = [&] { return mk(T::DECART, { G("X1"), G("X1") }); };
+    auto tup = [&](EP x, EP y) { return mk(T::NT_TUPLE, { std::move(x), std::move(y) }); };
+    // I{(a,b) | (a,b):∈X1×X1; a=b}
+    runCase(cx, mk(T::NT_IMPERATIVE_EXPR, { tup(L("a"), L("b")), mk(T::ITERATE, { pat(), x1x1() }), mk(T::EQUAL, { L("a"), L("b") }) }), "stage10.imp-pattern", true);
+    // I{(b,a) | c:∈X1; (a,b):=(c,c); d:∈X1; a=d}: an assigned pattern between two iterated plain variables
+    runCase(cx, mk(T::NT_IMPERATIVE_EXPR, { tup(L("b"), L("a")), mk(T::ITERATE, { L("c"), G("X1") }), mk(T::ASSIGN, { pat(), tup(L("c"), L("c")) }),
+      mk(T::ITERATE, { L("d"), G("X1") }), mk(T::EQUAL, { L("a"), L("d") }) }), "stage10.imp-pattern", true);
+    // R{(a,b):=(0,0) | a<3 | (a+1,b+a)}
+    runCase(cx, mk(T::NT_RECURSIVE_FULL, { pat(), tup(mkInt(0), mkInt(0)), mk(T::LESSER, { L("a"), mkInt(3) }),
+      tup(mk(T::PLUS, { L("a"), mkInt(1) }), mk(T::PLUS, { L("b"), L("a") })) }), "stage10.rec-pattern", false);
+    // R{((a,b),c):=((0,1),0) | c<4 | ((b,a),c+1)}: a nested pattern in the variable position
+    runCase(cx, mk(T::NT_RECURSIVE_FULL, { mk(T::NT_TUPLE_DECL, { pat(), L("c") }), tup(tup(mkInt(0), mkInt(1)), mkInt(0)),
+      mk(T::LESSER, { L("c"), mkInt(4) }), tup(tup(L("b"), L("a")), mk(T::PLUS, { L("c"), mkInt(1) })) }), "stage10.rec-pattern", false);
+    // ∀(a,b),c∈X1×X1 a=a ;  ∃c,(a,b)∈X1×X1 (c=(b,a) & a≠b)
+    runCase(cx, mk(T::FORALL, { mk(T::NT_ENUM_DECL, { pat(), L("c") }), x1x1(), mk(T::EQUAL, { L("a"), L("a") }) }), "stage10.enum-pattern", false);
+    runCase(cx, mk(T::EXISTS, { mk(T::NT_ENUM_DECL, { L("c"), pat() }), x1x1(),
+      mk(T::AND, { mk(T::EQUAL, { L("c"), tup(L("b"), L("a")) }), mk(T::NOTEQUAL, { L("a"), L("b") }) }) }), "stage10.enum-pattern", false);
   }
 }
 
